@@ -1729,6 +1729,10 @@ class Interp:
             if all(isinstance(x, int) for x in a):
                 return list(range(*a))
             lo, hi = (0, a[0]) if len(a) == 1 else (a[0], a[1])
+            if len(a) == 3 and isinstance(a[2], int) and a[2] == -1:
+                ln = lo - hi
+                ln = z3.If(ln > 0, ln, 0) if is_z3(ln) else max(ln, 0)
+                return FnView(ln, lambda j, lo=lo: lo - j, tag='range-down')
             if len(a) == 3 and a[2] != 1:
                 raise Unsupported('symbolic range with step')
             ln = hi - lo
@@ -1926,6 +1930,8 @@ class Interp:
                 return z3.ToReal(v)
             if is_z3(v):
                 return v
+            if hasattr(v, 'sym_float'):
+                return v.sym_float(i)
             if i.reg:
                 h = i.reg.float_hook(v)
                 if h:
